@@ -26,6 +26,12 @@ R-EVICT      the comparator is the strict lexicographic order on (access count, 
              (truth table over the nine sign combinations), the primary key is the field bumped by
              the lookup path and the secondary key is set from the cache's post-incremented running
              counter, and the trimming loop evicts `*ordered.begin()`.
+Layout independence: a scalar local that is initialised once and only read (`const size_t total = size_ - p->BytesCount()
++ size;`, `bool fits = total <= capacity_;`) stands for its defining expression for as long as nothing that expression
+reads has changed on the path (afterwards it is an opaque term: exit 2 if the counter is assigned from it, never a pass);
+private helpers are summarised and applied at their call sites whatever their nesting; guards may be lock_guard /
+unique_lock / scoped_lock (explicit unlock()/lock() and defer_lock are followed); a loop exits on its condition or on an
+`if (..) break/return` in its body alike; the evicted element may be named by a local that still equals `*ordered.begin()`.
 Not decided: values over histories (that data returned by a lookup is the most recent), unsigned
 wrap-around of `size_ + size`, that pointers handed out by HasAsset() stay valid after unlock,
 survival of assets referenced by remaining models.
@@ -36,7 +42,7 @@ import collections
 import itertools
 import os
 
-from .. import cfront, cir, cxx2, paths
+from .. import cfront, cir, cxx2, norm, paths
 from ..cfront import AnalysisError
 from ..cxx2 import etext
 
@@ -465,10 +471,15 @@ def check_api(res, R):
         if meth in ("Size", "Capacity"):
             construct = f"{api}:returns-accessor-unchanged"
             rets = []
+            vl = cxx2.value_locals(fn)
             for x in cxx2.walk(fn):
                 if x.get("k") == "ReturnStmt":
                     c = [y for y in cir.kids(x) if y is not None]
-                    rets.append(cxx2.skip(c[0]) if c else None)
+                    e = cxx2.skip(c[0]) if c else None
+                    # `const size_t n = cache->Size(); return n;` returns the accessor's value as well
+                    while e is not None and e.get("k") == "DeclRefExpr" and (e.get("ref") or {}).get("id") in vl:
+                        e = cxx2.skip(vl[e["ref"]["id"]][1])
+                    rets.append(e)
             good = [e for e in rets if e is not None and e.get("k") == "CXXMemberCallExpr" and cir.callee(e) == meth]
             other = [e for e in rets if e is not None and e not in good and not cxx2.is_zero_literal(e)]
             if good and not other:
@@ -533,10 +544,19 @@ class CacheRule(paths.Rule):
         # value locals (`const size_t total = size_ - p->BytesCount() + size;`, `bool fits = total <= capacity_;`):
         # {VarDecl id: (name, init expr, what the initialiser reads)}; see resolve()
         self.locals = {}
-        for vid, (decl, init) in cxx2.value_locals(method.node).items():
+        vl = cxx2.value_locals(method.node)
+        via = {d.get("n"): set(cir.vars_in(i)) | {z["ref"].get("n") for z in cir.walk(i) if z.get("k") == "DeclRefExpr" and
+                                                  (z.get("ref") or {}).get("k") == "BindingDecl"} for d, i in vl.values()}
+        for vid, (decl, init) in vl.items():
             deps = self.def_deps(decl, init)
             if deps is not None:
-                self.locals[vid] = (decl.get("n"), init, deps)
+                deps, work = set(deps), list(deps)
+                while work:
+                    for v in via.get(work.pop(), ()):
+                        if v not in deps:
+                            deps.add(v)
+                            work.append(v)
+                self.locals[vid] = (decl.get("n"), init, frozenset(deps))
 
     # -- helpers
     def initial(self, fn):
@@ -548,9 +568,10 @@ class CacheRule(paths.Rule):
     _DEF_OPS = ("+", "-", "<", ">", "<=", ">=", "==", "!=", "&&", "||")
 
     def def_deps(self, decl, init):
-        """What the initialiser of a scalar local reads: tags C (byte counter), CAP (capacity), SZ (an element's size),
-        L (membership of the lookup map) and the names of variables; None if the initialiser is not an expression the
-        rules interpret (the local then stays an opaque term, as any other expression)."""
+        """What the initialiser of a scalar local reads: tags #C (byte counter), #CAP (capacity), #SZ (an element's
+        size), #L (membership of the lookup map) and the names of variables (through pointer locals to theirs); None if
+        the initialiser is not an expression the rules interpret (the local then stays an opaque term, as any other
+        expression)."""
         R = self.R
         if not cxx2._TRIVIAL.match(cxx2.strip_cvref(decl.get("dt") or decl.get("t"))) or "*" in (decl.get("t") or ""):
             return None
@@ -582,20 +603,20 @@ class CacheRule(paths.Rule):
             if k == "MemberExpr":
                 b = cxx2.skip(cir.kids(x)[0]) if cir.kids(x) else None
                 if x.get("mid") in (R.counter, R.capacity) and (b is None or b.get("k") == "CXXThisExpr"):
-                    deps.add("C" if x["mid"] == R.counter else "CAP")
+                    deps.add("#C" if x["mid"] == R.counter else "#CAP")
                     return True
                 if x.get("mid") == R.esize and b is not None:
-                    deps.add("SZ")
+                    deps.add("#SZ")
                     return lvalue_vars(b)
                 return False
             if k == "CXXMemberCallExpr":
                 m = R.elem.callee_method(x)
                 if m is not None and m.id in R.esize_acc:
                     r = cxx2.receiver(x)
-                    deps.add("SZ")
+                    deps.add("#SZ")
                     return r[0] is not None and lvalue_vars(r[0])
             if self.presence(x) is not None:
-                deps.add("L")
+                deps.add("#L")
                 return all(lvalue_vars(a) for y in cxx2.walk(x) if y.get("k") == "CXXMemberCallExpr"
                            for a in cxx2.real_args(y)[1:])
             if k == "BinaryOperator" and x.get("op") in self._DEF_OPS:
@@ -729,7 +750,10 @@ class CacheRule(paths.Rule):
     def counter_write(self, st, node, op, rhs, ctx):
         R = self.R
         cname = R.cache.fname(R.counter)
-        construct = f"{self.m.qual}:{cname} {op} {self.describe(rhs)}"
+        res_ = self.resolve(st)
+        if rhs is not None:
+            rhs = res_(rhs)
+        construct = f"{self.m.qual}:{cname} {op} {self.describe(rhs, res_)}"
         self.event(construct, node, "counter")
         self.bound_sites.setdefault(construct, node)
         self.summary.writes_counter = True
@@ -739,18 +763,18 @@ class CacheRule(paths.Rule):
             st = self.led(st, "C", "ABS0", +1, construct)
             if st is None:
                 return None
-            return st._replace(facts=frozenset({frozenset({("C", 1)})}), dirty=frozenset())
+            return self.drop_defs(st._replace(facts=frozenset({frozenset({("C", 1)})}), dirty=frozenset()), "#C")
         if op == "=":
-            N = cxx2.linear(rhs, leaf)
+            N = cxx2.linear(rhs, leaf, res_)
             if N.get("C") != 1:
                 raise AnalysisError(f"{self.m.qual}: byte counter assigned a value that is not `counter ± terms` "
                                     f"({etext(rhs)})")
             delta = {t: c for t, c in N.items() if t != "C"}
-            Nb = cxx2.linear(rhs, self.leaf_bound)
+            Nb = cxx2.linear(rhs, self.leaf_bound, res_)
         elif op in ("+=", "-="):
             sg = 1 if op == "+=" else -1
-            delta = {t: sg * c for t, c in cxx2.linear(rhs, leaf).items()}
-            Nb = {t: sg * c for t, c in cxx2.linear(rhs, self.leaf_bound).items()}
+            delta = {t: sg * c for t, c in cxx2.linear(rhs, leaf, res_).items()}
+            Nb = {t: sg * c for t, c in cxx2.linear(rhs, self.leaf_bound, res_).items()}
             Nb["C"] = Nb.get("C", 0) + 1
         elif op in ("++", "--"):
             delta = {"V(1)": 1 if op == "++" else -1}
@@ -761,6 +785,7 @@ class CacheRule(paths.Rule):
             st = self.led(st, "C", t, c, construct)
             if st is None:
                 return None
+        st = self.drop_defs(st, "#C")      # locals computed from the old counter value no longer equal their definition
         # bound
         grows = any(c > 0 for t, c in Nb.items() if t != "C")
         form = frozenset(Nb.items())
@@ -777,7 +802,7 @@ class CacheRule(paths.Rule):
             self.bound_ok.setdefault(construct, True)
         return st
 
-    def describe(self, rhs):
+    def describe(self, rhs, resolve=None):
         """Name-free description of the written value (terms sorted, locals abstracted by role)."""
         if rhs is None:
             return "1"
@@ -801,7 +826,7 @@ class CacheRule(paths.Rule):
                 if rid in ps:
                     return f"param{ps.index(rid)}"
             return "expr"
-        N = cxx2.linear(rhs, leaf)
+        N = cxx2.linear(rhs, leaf, resolve)
         return " ".join(f"{'+' if c > 0 else '-'}{t}" for t, c in sorted(N.items()))
 
     # -- transfer
@@ -822,6 +847,8 @@ class CacheRule(paths.Rule):
             init = [c for c in cir.kids(node) if c is not None]
             if not init:
                 return st
+            if node.get("id") in self.locals:
+                return st._replace(defs=st.defs | {node.get("id")})
             e = init[-1]
             ins = None
             ee = cxx2.skip(e)
@@ -861,7 +888,7 @@ class CacheRule(paths.Rule):
             construct = f"{self.m.qual}:{R.cache.fname(R.capacity)} write"
             self.bound_sites.setdefault(construct, node)
             self.bound_ok[construct] = True     # judged at the exits through `dirty`
-            return st._replace(facts=frozenset(), dirty=st.dirty | {(construct, None)})
+            return self.drop_defs(st._replace(facts=frozenset(), dirty=st.dirty | {(construct, None)}), "#CAP")
         if tgt.get("k") == "MemberExpr" and tgt.get("mid") in R.keys:
             b = cir.kids(tgt)[0] if cir.kids(tgt) else None
             if b is not None and not is_elem_value_var(R, b):
@@ -903,9 +930,35 @@ class CacheRule(paths.Rule):
 
     def branch(self, st, cond, taken, ctx):
         R = self.R
+        res_ = self.resolve(st)
         s, neg = cxx2.cond_core(cond)
+        for _ in range(8):          # a bool local stands for its defining test
+            s2 = res_(s)
+            if s2 is s:
+                break
+            s, n2 = cxx2.cond_core(s2)
+            neg = neg != n2
         if neg:
             taken = not taken
+        if s is not None and s.get("k") == "BinaryOperator" and s.get("op") in ("&&", "||"):
+            # only reached through a bool local (the engine splits written-out && / || itself): `a && b` true and
+            # `a || b` false fix both operands; the other outcomes are disjunctions, from which nothing is learned
+            if (s["op"] == "&&") == taken:
+                for c in cir.kids(s):
+                    st = self.branch(st, c, taken, ctx)
+                    if st is None:
+                        return None
+            return st
+        # an own predicate `bool M(..) const { return <test>; }` is its test with the arguments put in
+        e = self.predicate_test(s)
+        if e is not None:
+            self._pred_depth = getattr(self, "_pred_depth", 0) + 1
+            try:
+                if self._pred_depth > 4:
+                    raise AnalysisError(f"{self.m.qual}: recursive predicate methods are not modelled")
+                return self.branch(st, e, taken, ctx)
+            finally:
+                self._pred_depth -= 1
         txt = etext(s)
         # freshly inserted element
         for it_t, ins_t, keyt, szt in st.fresh:
@@ -932,7 +985,7 @@ class CacheRule(paths.Rule):
             return st._replace(present=st.present - {keyt})
         # comparison against the capacity
         if s is not None and s.get("k") == "BinaryOperator" and s.get("op") in (">", ">=", "<", "<="):
-            a, b = cir.kids(s)
+            a, b = (res_(x) for x in cir.kids(s))
             op = s.get("op")
             fa, fb = cxx2.field_of(a), cxx2.field_of(b)
             if fa == R.capacity and fb != R.capacity:
@@ -940,11 +993,31 @@ class CacheRule(paths.Rule):
                 op = {">": "<", "<": ">", ">=": "<=", "<=": ">="}[op]
             elif fb != R.capacity:
                 return st
-            le = (op == ">" and not taken) or (op == "<=" and taken) or (op == "<" and taken)
+            le = (op in (">", ">=") and not taken) or (op in ("<=", "<") and taken)
             if le:
-                form = frozenset(cxx2.linear(a, self.leaf_bound).items())
+                form = frozenset(cxx2.linear(a, self.leaf_bound, res_).items())
                 return st._replace(facts=st.facts | {form})
         return st
+
+    def predicate_test(self, s):
+        """If s calls, on this object, a method of the cache whose whole body is `return <expr>;`: that expression with
+        the (side-effect free) arguments substituted for the parameters, else None."""
+        cm = self.R.cache.callee_method(s) if s is not None and s.get("k") == "CXXMemberCallExpr" else None
+        if cm is None or cm.body is None:
+            return None
+        r = cxx2.receiver(s)
+        base = cxx2.skip(r[0]) if r and r[0] is not None else None
+        if base is None or base.get("k") != "CXXThisExpr":
+            return None
+        sts = [c for c in cir.kids(cm.body) if c is not None and c.get("k") != "NullStmt"]
+        if len(sts) != 1 or sts[0].get("k") != "ReturnStmt":
+            return None
+        e = [c for c in cir.kids(sts[0]) if c is not None]
+        args = cxx2.real_args(s)[1:]
+        ps = cm.params()
+        if not e or len(args) != len(ps) or not all(cir.is_pure(self._no_opcalls(a)) for a in args):
+            return None
+        return norm.substitute(e[0], {p_.get("id"): a for p_, a in zip(ps, args)})
 
     def presence(self, s):
         """(key text, True if the condition being true means `present`) for find()==end() etc."""
@@ -995,7 +1068,7 @@ class CacheRule(paths.Rule):
                 construct = f"{self.m.qual}:{cn}.erase"
                 self.event(construct, node, "member")
                 key = self.erased_elem(st, a[0])
-                st = st._replace(present=frozenset(), facts=st.facts)
+                st = self.drop_defs(st._replace(present=frozenset(), facts=st.facts), "#L", "#SZ")
                 st = self.led(st, "C", self.sz_term(st, key), +1, construct)
                 if st is None:
                     return None
@@ -1003,14 +1076,14 @@ class CacheRule(paths.Rule):
             if mf[1] == "clear":
                 construct = f"{self.m.qual}:{cn}.clear"
                 self.event(construct, node, "member")
-                st = st._replace(present=frozenset())
+                st = self.drop_defs(st._replace(present=frozenset()), "#L", "#SZ")
                 st = self.led(st, "C", "ABS0", -1, construct)
                 if st is None:
                     return None
                 return self.led(st, "S", "ABS0", -1, construct)
             if mf[1] in INSERT_OPS:
                 # the result must be bound (structured binding / pair variable) so that the fresh case is seen
-                return st._replace(present=st.present)
+                return self.drop_defs(st, "#L")
             if mf[1] in ("find", "end", "begin", "contains", "count", "size", "empty", "at", "cbegin", "cend"):
                 return st
             raise AnalysisError(f"{self.m.qual}: unsupported operation {cn}.{mf[1]}")
@@ -1029,6 +1102,8 @@ class CacheRule(paths.Rule):
                     self.event(construct, node, "member")
                     old = self.sz_term(st, key)
                     v = fs_get(st.ver, key)
+                    self.summary.mutates_size = True
+                    st = self.drop_defs(st, "#SZ")
                     st = st._replace(ver=fs_set(st.ver, key, v + 1),
                                      facts=frozenset(f for f in st.facts if not any("(" in t[2:] for t, _ in f)))
                     new = f"SZ({key})#{v + 1}"
@@ -1109,7 +1184,14 @@ class CacheRule(paths.Rule):
                 st = st._replace(dirty=st.dirty | {(construct, f2)})
         if sm.touches_lookup:
             self.summary.touches_lookup = True
-            st = st._replace(present=frozenset())
+            st = self.drop_defs(st._replace(present=frozenset()), "#L", "#SZ")
+        if sm.mutates_size:
+            self.summary.mutates_size = True
+            st = self.drop_defs(st, "#SZ")
+        if sm.writes_counter:
+            st = self.drop_defs(st, "#C")
+        if sm.cap_dirty:
+            st = self.drop_defs(st, "#CAP")
         if sm.grows:
             self.summary.grows = True
             st = st._replace(facts=frozenset(f for f in st.facts if not any(t == "C" for t, _ in f)))
@@ -1361,6 +1443,59 @@ def eval_cmp(R, node, env):
     return r[1]
 
 
+def least_args(R, m):
+    """{id(call): True/False} for the calls of own-class methods in method m: True when, on every path reaching the call,
+    one argument is the least element of the ordered container *at that moment*: `*ordered.begin()` written in place, or
+    a local initialised from it with no change of the ordered container (and no own-class call) in between."""
+    cache = R.cache
+    least_txt = f"*{cache.fname(R.ordered)}.begin()"
+    READS = ("begin", "end", "cbegin", "cend", "empty", "size", "find", "count", "contains")
+
+    class Least(paths.Rule):
+        def __init__(self):
+            self.seen = {}
+
+        def initial(self, fn):
+            return frozenset()
+
+        def assign(self, st, node, ctx):
+            if node.get("k") == "VarDecl":
+                init = [c for c in cir.kids(node) if c is not None]
+                st = st - {node.get("id")}
+                if init and etext(init[-1]) == least_txt:
+                    return st | {node.get("id")}
+                e = cxx2.skip(init[-1]) if init else None
+                if e is not None and e.get("k") == "DeclRefExpr" and (e.get("ref") or {}).get("id") in st:
+                    return st | {node.get("id")}
+                return st
+            c = cir.kids(node)
+            t = cxx2.skip(c[0]) if c else None
+            if t is not None and t.get("k") == "DeclRefExpr":
+                return st - {(t.get("ref") or {}).get("id")}
+            return st
+
+        def call(self, st, node, name, ctx):
+            mf = cxx2.member_call_on_field(node) if node.get("k") == "CXXMemberCallExpr" else None
+            if mf and mf[0] == R.ordered:
+                return st if mf[1] in READS else frozenset()
+            if node.get("k") == "CXXMemberCallExpr" and cache.callee_method(node) is not None:
+                ok = False
+                for a in cxx2.real_args(node)[1:]:
+                    e = cxx2.skip(a)
+                    if etext(a) == least_txt or (e is not None and e.get("k") == "DeclRefExpr" and
+                                                 (e.get("ref") or {}).get("id") in st):
+                        ok = True
+                self.seen[id(node)] = self.seen.get(id(node), True) and ok
+                return frozenset()
+            return st
+
+        def range_iter(self, st, loop, ctx):
+            return st
+    rule = Least()
+    cxx2.explore(rule, TU, m.node)
+    return rule.seen
+
+
 def check_evict(res, R, rules):
     res.rule("R-EVICT", "comparator = strict lexicographic order on (access count, insertion number); eviction takes "
              "*ordered.begin(); key roles identified from the lookup and insertion paths", floor=4)
@@ -1416,9 +1551,17 @@ def check_evict(res, R, rules):
                 bumped.add(cxx2.field_of(cir.kids(x)[0]))
     counter_field = None
     for m in ins:
+        vl = cxx2.value_locals(m.node)
+
+        def snap(e):
+            """a local initialised once (`const auto n = insert_num_++;`) holds the value of its initialiser"""
+            e = cxx2.skip(e)
+            while e is not None and e.get("k") == "DeclRefExpr" and (e.get("ref") or {}).get("id") in vl:
+                e = cxx2.skip(vl[e["ref"]["id"]][1])
+            return e
         for x in cxx2.walk(m.node):
             if x.get("k") == "BinaryOperator" and x.get("op") == "=" and cxx2.field_of(cir.kids(x)[0]) in R.keys:
-                arg = cxx2.skip(cir.kids(x)[1])
+                arg = snap(cir.kids(x)[1])
                 if arg is not None and arg.get("k") == "UnaryOperator" and arg.get("op") == "++" and \
                         arg.get("isPostfix") and cxx2.field_of(cir.kids(arg)[0]) in cache.fields:
                     stamped.add(cxx2.field_of(cir.kids(x)[0]))
@@ -1429,7 +1572,7 @@ def check_evict(res, R, rules):
                     a = cxx2.real_args(x)[1:]
                     ws = [(f, rhs) for f, node, rhs in E.field_writes(em) if f in R.keys]
                     if len(a) == 1 and len(ws) == 1:
-                        arg = cxx2.skip(a[0])
+                        arg = snap(a[0])
                         if arg is not None and arg.get("k") == "UnaryOperator" and arg.get("op") == "++" and \
                                 arg.get("isPostfix") and cxx2.field_of(cir.kids(arg)[0]) in cache.fields:
                             rr = cxx2.skip(ws[0][1])
@@ -1468,28 +1611,29 @@ def check_evict(res, R, rules):
         res.bad("R-EVICT", f"{cmpq}:secondary-is-insertion-order", R.cmp.file, R.cmp_op.line,
                 f"the comparator's second key `{E.fname(k2)}` is not the field stamped from the cache's post-incremented "
                 f"running counter on insertion (stamped: {[E.fname(f) for f in stamped]})")
-    # eviction takes the least element: every loop whose condition compares counter and capacity
+    # eviction takes the least element: every loop one of whose exit tests (loop condition, or an `if (..) break/return`
+    # directly in its body) compares counter and capacity
     cands = []
     for m in R.methods:
         for lp in cxx2.walk(m.node):
             if lp.get("k") in ("WhileStmt", "ForStmt", "DoStmt"):
-                c = cir.kids(lp)
-                cond = c[1] if lp["k"] == "DoStmt" else (c[2] if lp["k"] == "ForStmt" else c[0])
-                fs = {x.get("mid") for x in cxx2.walk(cond)} if cond else set()
-                if R.counter in fs and R.capacity in fs:
-                    cands.append((m, lp))
+                for cond in cxx2.loop_exit_conds(lp):
+                    fs = {x.get("mid") for x in cxx2.walk(cond)}
+                    if R.counter in fs and R.capacity in fs:
+                        cands.append((m, lp))
+                        break
     if not cands:
         res.bad("R-EVICT", f"{CACHE}:evicts-least", cache.file, cache.node.get("line"),
                 "no trimming loop (condition over the byte counter and the capacity) found")
     for m, lp in cands:
         good = False
         where = lp
+        least = least_args(R, m)
         for x in cxx2.walk(lp):
             if x.get("k") == "CXXMemberCallExpr" and cache.callee_method(x) is not None:
                 where = x
-                for a in cxx2.real_args(x)[1:]:
-                    if etext(a) == f"*{cache.fname(R.ordered)}.begin()":
-                        good = True
+                if least.get(id(x)):
+                    good = True
         if good:
             res.ok("R-EVICT", f"{m.qual}:evicts-least", {"file": m.file, "line": where.get("line")})
         else:
@@ -1540,6 +1684,28 @@ def run(res, tier):
 
 _CC, _H = TU, "src/user/user_cache.h"
 _HELPER_AT = "// trims out data to meet memory requirements"
+# the shapes of /verif/refactors/D-p4 as small anchored edits (controls) and the same shapes with a defect (mutants)
+_CAP_TEST = "    if (size_ - asset_ptr->BytesCount() + size > capacity_) { return false; }\n"
+_CNT_WRITE = "    size_ = size_ - asset_ptr->BytesCount() + size;\n"
+_HOISTED = "    const std::size_t replaced = size_ - asset_ptr->BytesCount() + size;\n"
+_DEL1 = ("void mjCCache::Delete(mjCAsset* asset) {\n  size_ -= asset->BytesCount();\n  entries_.erase(asset);\n"
+         "  for (auto& reference : asset->References()) { models_[reference].erase(asset); }\n  lookup_.erase(asset->Id());\n}")
+_DEL2 = ("void mjCCache::Delete(mjCAsset* asset, const std::string& skip) {\n  size_ -= asset->BytesCount();\n"
+         "  entries_.erase(asset);\n\n  for (auto& reference : asset->References()) {\n"
+         "    if (reference != skip) { models_[reference].erase(asset); }\n  }\n  lookup_.erase(asset->Id());\n}")
+_DEL_EXCEPT = ("void mjCCache::Delete(mjCAsset* asset, const std::string& skip) {\n  DeleteExcept(asset, &skip);\n}\n\n"
+               "void mjCCache::DeleteExcept(mjCAsset* asset, const std::string* skip) {\n%s  entries_.erase(asset);\n"
+               "  for (const std::string& model : asset->References()) {\n    if (skip && model == *skip) { continue; }\n"
+               "    models_[model].erase(asset);\n  }\n  lookup_.erase(asset->Id());\n}")
+_MERGE = [(_CC, _DEL1, "void mjCCache::Delete(mjCAsset* asset) {\n  DeleteExcept(asset, nullptr);\n}"),
+          (_H, "  void Trim();", "  void Trim();\n  void DeleteExcept(mjCAsset* asset, const std::string* skip);")]
+_TRIM = "  while (size_ > capacity_) { Delete(*entries_.begin()); }"
+_TRIM_FOR = ("  for (;;) {\n    if (size_ <= capacity_) { break; }\n    mjCAsset* lowest = *entries_.%s();\n"
+             "    Delete(lowest);\n  }")
+_POP_LOCK = ("PopulateData(const std::string& id, const mjResource* resource, mjCDataFunc fn) {\n"
+             "  std::lock_guard<std::mutex> lock(mutex_);")
+_POP_ULOCK = ("PopulateData(const std::string& id, const mjResource* resource, mjCDataFunc fn) {\n"
+              "  std::unique_lock<std::mutex> lock(mutex_);")
 SELFTEST = {
     # name: (edits, substring expected among the new reports, or None for a control that must stay silent)
     "remove-lock_guard": ([(_CC, "std::size_t mjCCache::Size() const {\n  std::lock_guard<std::mutex> lock(mutex_);\n",
@@ -1591,6 +1757,63 @@ SELFTEST = {
                                 (_CC, _HELPER_AT, "void mjCCache::Touch(mjCAsset* a) {\n  entries_.erase(a);\n  a->IncrementAccess();\n"
                                  "  entries_.insert(a);\n}\n\n" + _HELPER_AT),
                                 (_H, "  void Trim();", "  void Trim();\n  void Touch(mjCAsset* a);")], None),
+    "control-hoist-size-local": ([(_CC, _CAP_TEST, _HOISTED + "    if (replaced > capacity_) { return false; }\n"),
+                                  (_CC, _CNT_WRITE, "    size_ = replaced;\n")], None),
+    "hoisted-size-skips-capacity-test": ([(_CC, _CAP_TEST, _HOISTED), (_CC, _CNT_WRITE, "    size_ = replaced;\n")],
+                                         "R-BOUND construct=mjCCache::Insert"),
+    "hoisted-size-forgets-old-bytes": ([(_CC, _CAP_TEST, "    const std::size_t replaced = size_ + size;\n"
+                                         "    if (replaced > capacity_) { return false; }\n"),
+                                        (_CC, _CNT_WRITE, "    size_ = replaced;\n")], "R-PAIRWRITE construct=mjCCache::Insert"),
+    "hoisted-size-stale-after-counter-write": ([(_CC, _CAP_TEST, _HOISTED + "    if (replaced > capacity_) { return false; }\n"),
+                                                (_CC, _CNT_WRITE, "    size_ -= asset_ptr->BytesCount();\n    size_ = replaced;\n")],
+                                               "<exit 2>"),
+    "control-merge-delete-overloads": (_MERGE + [(_CC, _DEL2, _DEL_EXCEPT % "  size_ -= asset->BytesCount();\n")], None),
+    "merged-delete-drops-size-decrement": (_MERGE + [(_CC, _DEL2, _DEL_EXCEPT % "")],
+                                           "R-PAIRWRITE construct=mjCCache::DeleteExcept"),
+    "control-trim-for-break": ([(_CC, _TRIM, _TRIM_FOR % "begin")], None),
+    "trim-for-break-evicts-greatest": ([(_CC, _TRIM, _TRIM_FOR % "rbegin")], "R-EVICT construct=mjCCache::Trim():evicts-least"),
+    "trim-for-break-stale-least": ([(_CC, _TRIM, (_TRIM_FOR % "begin").replace("    Delete(lowest);", "    entries_.erase(lowest);\n"
+                                     "    lowest->IncrementAccess();\n    entries_.insert(lowest);\n    Delete(lowest);"))],
+                                   "R-EVICT construct=mjCCache::Trim():evicts-least"),
+    "trim-for-break-wrong-exit": ([(_CC, _TRIM, (_TRIM_FOR % "begin").replace("size_ <= capacity_", "size_ > capacity_"))],
+                                  "R-BOUND construct=mjCCache::SetCapacity(std::size_t):capacity_ write"),
+    "control-unique-lock-split-guard": ([(_CC, "std::lock_guard<std::mutex> lock(mutex_);\n\n  // check if asset is too large",
+                                          "std::unique_lock<std::mutex> lock(mutex_);\n\n  // check if asset is too large"),
+                                         (_CC, "  if ((size_ + size > capacity_) && lookup_.find(id) == lookup_.end()) { return false; }",
+                                          "  if (size_ + size > capacity_) {\n    if (lookup_.find(id) == lookup_.end()) { return false; }\n  }"),
+                                         (_CC, _POP_LOCK, _POP_ULOCK)], None),
+    "unique-lock-released-early": ([(_CC, _POP_LOCK, _POP_ULOCK),
+                                    (_CC, "  // update priority queue\n", "  lock.unlock();\n  // update priority queue\n")],
+                                   "R-LOCK construct=mjCCache::PopulateData"),
+    "unique-lock-deferred": ([(_CC, _POP_LOCK, _POP_ULOCK.replace("lock(mutex_)", "lock(mutex_, std::defer_lock)"))],
+                             "R-LOCK construct=mjCCache::PopulateData"),
+    "control-hasasset-conditional": ([(_CC, "  if (it == lookup_.end()) { return nullptr; }\n\n  return &(it->second.Timestamp());",
+                                       "  return (it != lookup_.end()) ? &(it->second.Timestamp()) : nullptr;")], None),
+    "control-new-asset-branch-first": ([(_CC, "  if (!inserted) {\n", "  if (inserted) {\n    asset_ptr->SetInsertNum(insert_num_++);\n"
+                                         "    entries_.insert(asset_ptr);\n    models_[modelname].insert(asset_ptr);\n    size_ += size;\n"
+                                         "    return true;\n  }\n  {\n"),
+                                        (_CC, "  // new asset\n  asset_ptr->SetInsertNum(insert_num_++);\n  entries_.insert(asset_ptr);\n"
+                                         "  models_[modelname].insert(asset_ptr);\n  size_ += size;\n  return true;\n}", "  return true;\n}"),
+                                        (_CC, "    if (it->second.Timestamp() == asset.Timestamp()) { return true; }\n"
+                                         "    asset_ptr->SetTimestamp(asset.Timestamp());\n" + _CNT_WRITE +
+                                         "    asset_ptr->ReplaceData(asset);\n",
+                                         "    if (asset_ptr->Timestamp() != asset.Timestamp()) {\n"
+                                         "      asset_ptr->SetTimestamp(asset.Timestamp());\n  " + _CNT_WRITE +
+                                         "      asset_ptr->ReplaceData(asset);\n    }\n")], None),
+    "control-accessor-through-local": ([(_CC, "  std::lock_guard<std::mutex> lock(mutex_);\n  return size_;",
+                                         "  std::lock_guard<std::mutex> lock(mutex_);\n  const std::size_t bytes = size_;\n  return bytes;"),
+                                        (_CC, "  asset_ptr->SetInsertNum(insert_num_++);", "  const auto stamp = insert_num_++;\n"
+                                         "  asset_ptr->SetInsertNum(stamp);")], None),
+    "control-extract-capacity-predicate": ([(_CC, "  if ((size_ + size > capacity_) && lookup_", "  if (WouldExceed(size) && lookup_"),
+                                            (_CC, _HELPER_AT, "bool mjCCache::WouldExceed(std::size_t extra) const {\n"
+                                             "  return size_ + extra > capacity_;\n}\n\n" + _HELPER_AT),
+                                            (_H, "  void Trim();", "  void Trim();\n  bool WouldExceed(std::size_t extra) const;")],
+                                           None),
+    "capacity-predicate-weakened": ([(_CC, "  if ((size_ + size > capacity_) && lookup_", "  if (WouldExceed(size) && lookup_"),
+                                     (_CC, _HELPER_AT, "bool mjCCache::WouldExceed(std::size_t extra) const {\n"
+                                      "  return extra > capacity_;\n}\n\n" + _HELPER_AT),
+                                     (_H, "  void Trim();", "  void Trim();\n  bool WouldExceed(std::size_t extra) const;")],
+                                    "R-BOUND construct=mjCCache::Insert"),
     "control-extract-accounting": ([(_CC, "  size_ += size;\n  return true;", "  Grow(size);\n  return true;"),
                                     (_CC, _HELPER_AT, "void mjCCache::Grow(std::size_t n) { size_ += n; }\n\n" + _HELPER_AT),
                                     (_H, "  void Trim();", "  void Trim();\n  void Grow(std::size_t n);")], None),
@@ -1626,7 +1849,9 @@ def run_selftest(pid, table, res, rename=None):
         if rename:
             got = {rename(g) for g in got}
         new = sorted(got - base)
-        if rc == 2:
+        if expect == "<exit 2>":
+            ok = rc == 2
+        elif rc == 2:
             ok = False
         elif expect is None:
             ok = not new
